@@ -500,7 +500,7 @@ fn guarded(req: &Value) -> Value {
     }
 }
 
-fn handle(req: &Value) -> Value {
+pub fn handle(req: &Value) -> Value {
     match req["op"].as_str().unwrap_or("") {
         "locales" => json!(Locale::get_all().iter().map(|l| l.as_str()).collect::<Vec<_>>()),
         "table" => table_list(),
